@@ -371,6 +371,7 @@ class SimProc:
         else:
             self.exit_at = start_at + plan.lifetime
         self.reaped = False
+        self.enum_failed = False
 
     def alive(self, now):
         if self.exit_at <= now:
@@ -394,6 +395,7 @@ class ProcTable:
         self.factory = factory  # (cmd) -> ProcPlan
         self.procs: dict[int, SimProc] = {}
         self.next_pid = 4000
+        self.glitch = None  # {"kind": "IndexError" | "AccessDenied", "left": n}
         sim.timers.append(self._next_event)
 
     def _next_event(self):
@@ -523,6 +525,15 @@ class SimPsProcess:
         if _proc is None:
             sim.yield_("psutil.Process")
             p = PROCS.procs.get(pid)
+            g = PROCS.glitch
+            if g and g["left"] > 0 and g.get("site") == "ctor" and p is not None:
+                # psutil.Process(pid) reads /proc/<pid>/stat for the creation time; seen failing for real
+                # with IndexError while the process is between fork and exec
+                g["left"] -= 1
+                sim.fault("psutil_ctor_error")
+                p.enum_failed = True
+                raise (IndexError("list index out of range") if g["kind"] == "IndexError"
+                       else _psutil.AccessDenied(pid))
             if p is None or not p.exists(sim.now):
                 sim.probe("psutil_nosuchprocess_ctor")
                 raise _psutil.NoSuchProcess(pid)
@@ -535,6 +546,16 @@ class SimPsProcess:
         sim.yield_("psutil.children")
         if not self._p.exists(sim.now):
             raise _psutil.NoSuchProcess(self.pid)
+        g = PROCS.glitch
+        if g and g["left"] > 0 and g.get("site") != "ctor":
+            # enumeration of the process tree fails (psutil parsing /proc while processes start and exit:
+            # seen for real as IndexError in psutil._pslinux.ppid_map; or AccessDenied): the helpers of this
+            # solver are then unknown to halmos, the solver process itself is not
+            g["left"] -= 1
+            sim.fault("psutil_children_error")
+            self._p.enum_failed = True
+            raise (IndexError("list index out of range") if g["kind"] == "IndexError"
+                   else _psutil.AccessDenied(self.pid))
         out = [SimPsProcess(_proc=c) for c in self._p.children if c.alive(sim.now)]
         for c in out:
             if getattr(c._p.plan, "die_when_listed", False):
